@@ -4,21 +4,7 @@ from pathlib import Path
 
 VERIF = Path(__file__).resolve().parent.parent
 
-CLAIMED = {
-    # pid: (technique, level text, level note, design_ref)
-    "C01": (
-        "Lean 4 theorems over a hand-written scheduler model (all pipelines, all step counts) + regenerated MODEL_GROUPS table + differential run of the real scheduler against the model",
-        "Machine-checked proof (Lean 4 kernel) that the scheduler model runs exactly the enabled models, each once, in (physical group rank, user index) order with exactly their arguments, independently of YAML key order, step and debug flag, for every pipeline; the group tuple is re-extracted from pipeline.py on every run and proved equal to the statement's order; the model is tied to the code by running the real exposure scheduler on generated pipelines (YAML and Python construction, debug on/off, all 45 group pairs) and diffing traces.",
-        "Trusted: Lean kernel + {propext, Classical.choice, Quot.sound}; extract.py; probe-based observation of ModelFunction.__call__; xarray/debug capture modelled as not calling models (checked dynamically through /intermediate node names).",
-        "6/C01",
-    ),
-    "C04": (
-        "Lean 4 theorems about the save/seed/restore discipline (all programs, all generators) and about the lock protocol (all thread schedules) + ast-extracted tables of every seeded model / seed plumbing + differential runs of the real generator, models and modes",
-        "Machine-checked proof that any program whose draws are inside seeded regions restores the process-wide generator exactly (also when a model fails) and yields draws independent of the prior state, for every nesting; and that with the re-entrant lock every schedule of any number of threads keeps each seeded region deterministic and the generator restored. Tables regenerated from today's source (every model function with a seed parameter draws only under set_random_seed(seed); nobody else seeds the global generator; every mode hands pipeline_seed down; shape of set_random_seed) are re-proved on every run. Tie to code: random programs on the real numpy generator vs the model on a symbolic generator; every seeded model function and every running mode run twice from different prior states, bitwise comparison; real overlapping threads.",
-        "Partial for threads: atomicity of single numpy calls under the GIL and absence of concurrent UNSEEDED draws are assumed, OS scheduling is sampled not controlled. Static call graph is by simple name. Models needing data files (cosmix, nghxrg, qe map) are covered by the static table only.",
-        "6/C04",
-    ),
-}
+CLAIMED = {k: (v["technique"], v["text"], v["note"], v["design_ref"]) for k, v in json.loads((VERIF / "harness" / "claims.json").read_text()).items()}
 
 ALL = [f"C{i:02d}" for i in range(1, 21)]
 
